@@ -55,13 +55,6 @@ Definition escape_children (t : tag) : bool :=
   match t with Textarea | ScriptT | StyleT => false | _ => true end.
 
 (** * text-like children *)
-(** UTF-8 encoding of a scalar value (char::encode_utf8) *)
-Definition utf8 (c : N) : bytes :=
-  if c <? 128 then [c]
-  else if c <? 2048 then [192 + c / 64; 128 + c mod 64]
-  else if c <? 65536 then [224 + c / 4096; 128 + (c / 64) mod 64; 128 + c mod 64]
-  else [240 + c / 262144; 128 + (c / 4096) mod 64; 128 + (c / 64) mod 64; 128 + c mod 64].
-
 (** i64 as Display *)
 Definition dec_z (z : Z) : bytes :=
   match z with
